@@ -37,7 +37,7 @@ PROFILES = {
     'C07': gen.profile(p_fail=0.2),
     'C08': gen.profile(p_fail=0.15, p_rec=0.25),
     'C09': gen.profile(p_sw=0.45, p_oneof=0.1, p_rec=0.12, p_share_decider=0.5, p_unnamed_switch=0.4, p_share_lazy=0.4),
-    'C10': gen.profile(p_oneof=0.45, p_sw=0.1, p_rec=0.1, p_fail=0.25, p_cand_falsy=0.3),
+    'C10': gen.profile(p_oneof=0.45, p_sw=0.1, p_rec=0.1, p_fail=0.25, p_cand_falsy=0.3, p_contain_shape=0.4),
     'C11': gen.profile(p_rec=0.5, p_sw=0.1, p_oneof=0.1, p_rec_nested=0.45, p_falsy_ad=0.3),
     'C12': gen.profile(p_retry=0.8, p_fail=0.5, n_max=6),
     'C13': gen.profile(n_max=7),
@@ -118,8 +118,8 @@ def _tagcount(acc, prog):
 
 def gen_prog(rng, prop, hostile_ok=True):
     prof = dict(PROFILES[prop])
-    if hostile_ok and rng.random() < HOSTILE_SHARE:
-        fam = rng.choice(HOSTILE_FAMILIES + (['dup_param'] if prop == 'C03' else [])
+    if hostile_ok and rng.random() < (0.3 if prop == 'C09' else HOSTILE_SHARE):
+        fam = rng.choice((['switch_unknown_label'] * 3 if prop == 'C09' else []) + HOSTILE_FAMILIES + (['dup_param'] if prop == 'C03' else [])
                          + (['rec_inner', 'rec_inner'] if prop in ('C01', 'C03', 'C09', 'C10', 'C11') else []))
         if fam == 'rec_inner':
             prof['rec_inner'] = True
